@@ -6,6 +6,8 @@
 //!   A<id>  peer opens request stream id (no bytes yet)      G<pid>  peer GOAWAY(pid) on its control stream
 //!   P      run the executor to quiescence (the accept task is polled only when h3's wakers woke it, or to
 //!          leave the gate it parks at after a `none`)
+//!   b / W  flow control on OUR control stream closes / reopens;  XU the transport fails (ConnectionErrorIncoming::Undefined)
+//!   x<id>:toobig (field section above the limit: 431) | truncfin | truncrst (FIN / RESET inside HEADERS) | unknown (<id>:K)
 //!   x<id>:dropres | ok | fin | rst | badqpack | unexpected | malformed | finish | rstafter | drop | split
 //!          | dropsend | droprecv    peer bytes for that ending are queued first, then the application acts
 //! Output: `ok <group> ...` one group per atomic op: for P the new events of the accept task
@@ -190,6 +192,19 @@ fn err_text(canon: &str, w: &Shared, log0: usize) -> String {
 const HEADERS_BAD_QPACK: &str = "01030000ff";
 const HEADERS_MALFORMED: &str = "01030000c1"; // only `:path /`
 const DATA_FIRST: &str = "000178";
+const HEADERS_TRUNCATED: &str = "01080000d1"; // frame header announces 8 bytes, 3 arrive
+/// valid request whose field section is far above the server's limit (MAX_FIELD_SECTION below)
+fn headers_too_big() -> String {
+    // :method GET, :scheme https, :authority = 600 x 'a' (literal with static name reference), :path /
+    let mut block = vec![0u8, 0, 0xd1, 0xd7, 0x50, 0x7f, 0xd9, 0x03];
+    block.extend(std::iter::repeat(b'a').take(600));
+    block.push(0xc1);
+    let mut f = vec![0x01u8];
+    f.extend_from_slice(&varint_enc(block.len() as u64));
+    f.extend_from_slice(&block);
+    h3v::hex(&f)
+}
+const MAX_FIELD_SECTION: u64 = 400;
 
 type Resolver = h3::server::RequestResolver<SimConn, Bytes>;
 type Whole = h3::server::RequestStream<SimBidi<Bytes>, Bytes>;
@@ -216,6 +231,7 @@ fn drain_case(fam: &str, ops: &str) -> String {
     if !env.grease {
         b.send_grease(false);
     }
+    b.max_field_section_size(MAX_FIELD_SECTION);
     let conn: h3::server::Connection<SimConn, Bytes> = match poll_once(b.build(SimConn { world: w.clone() })) {
         Poll::Ready(Ok(c)) => c,
         Poll::Ready(Err(e)) => return format!("build-err {}", conn_err(&e)),
@@ -384,6 +400,21 @@ fn drain_case(fam: &str, ops: &str) -> String {
                 }
                 groups.push(outs.join(","));
             }
+            b'b' => {
+                w.lock().unwrap().streams.get_mut(&ctl).unwrap().tx_budget = Some(0);
+                groups.push(".".into());
+            }
+            b'W' => {
+                let limited = w.lock().unwrap().streams.get(&ctl).unwrap().tx_budget.is_some();
+                if limited {
+                    w.lock().unwrap().grant_write(ctl, 1 << 40);
+                }
+                groups.push(".".into());
+            }
+            b'X' => {
+                assert!(apply_event(&w, "XU"));
+                groups.push(".".into());
+            }
             b'x' => {
                 let mut it = arg.split(':');
                 let id: u64 = it.next().unwrap().parse().unwrap();
@@ -408,7 +439,7 @@ fn apply_action(w: &Shared, objs: &mut HashMap<u64, Obj>, id: u64, act: &str) ->
             }
             _ => "skip".into(),
         },
-        "ok" | "fin" | "rst" | "badqpack" | "unexpected" | "malformed" => {
+        "ok" | "fin" | "rst" | "badqpack" | "unexpected" | "malformed" | "toobig" | "truncfin" | "truncrst" | "unknown" => {
             let r = match objs.remove(&id) {
                 Some(Obj::Resolver(r)) => r,
                 Some(o) => {
@@ -423,6 +454,16 @@ fn apply_action(w: &Shared, objs: &mut HashMap<u64, Obj>, id: u64, act: &str) ->
                 "rst" => ev(format!("{}:R268", id)),
                 "badqpack" => ev(format!("{}:c:{}", id, HEADERS_BAD_QPACK)),
                 "unexpected" => ev(format!("{}:c:{}", id, DATA_FIRST)),
+                "toobig" => ev(format!("{}:c:{}", id, headers_too_big())),
+                "truncfin" => {
+                    ev(format!("{}:c:{}", id, HEADERS_TRUNCATED));
+                    ev(format!("{}:F", id));
+                }
+                "truncrst" => {
+                    ev(format!("{}:c:{}", id, HEADERS_TRUNCATED));
+                    ev(format!("{}:R268", id));
+                }
+                "unknown" => ev(format!("{}:K", id)),
                 _ => ev(format!("{}:c:{}", id, HEADERS_MALFORMED)),
             }
             match poll_once(r.resolve_request()) {
@@ -434,9 +475,14 @@ fn apply_action(w: &Shared, objs: &mut HashMap<u64, Obj>, id: u64, act: &str) ->
                         "resolved-unexpectedly".into()
                     }
                 }
-                Poll::Ready(Err(_e)) => {
+                Poll::Ready(Err(e)) => {
                     if act == "ok" {
                         "resolve-failed".into()
+                    } else if act == "toobig"
+                        && !matches!(e, h3::error::StreamError::HeaderTooBig { .. })
+                        && w.lock().unwrap().conn_lost.is_none()
+                    {
+                        "toobig-not-431".into()
                     } else {
                         ".".into()
                     }
